@@ -132,7 +132,10 @@ func addScrubFieldsToSelectionSet(ctx *PlanningContext, selectionSet ast.Selecti
 		// check that union or interface definition
 		// contains ID field AND it's children implements node
 		fd := t.Fields.ForName(common.IDFieldName)
-		isImplementsNode, _ = ctx.TypeURLMap.GetTypeIsImplementsNode(pt[0].Name)
+		// an interface may have no implementation (yet) in the merged schema
+		if len(pt) > 0 {
+			isImplementsNode, _ = ctx.TypeURLMap.GetTypeIsImplementsNode(pt[0].Name)
+		}
 
 		isImplementsNode = isImplementsNode && fd != nil
 	} else {
